@@ -88,7 +88,7 @@ pub fn build_config(path: &str, c: &ScnConfig, key: &str) -> Arc<SystemConfig> {
     };
     s.cache.enabled = c.cache != "off";
     if c.cache == "tiny" {
-        s.cache.size = "2 KB".parse().expect("cache size");
+        s.cache.size = "300 B".parse().expect("cache size"); // four or five small messages
     } else {
         s.cache.size = "512 MB".parse().expect("cache size");
     }
@@ -117,6 +117,8 @@ pub struct Incarnation {
 }
 
 pub fn start(config: Arc<SystemConfig>, scn: &ScnConfig, with_http: bool) -> Result<Incarnation, String> {
+    // a server that never finishes starting (it normally takes milliseconds) is a finding, not a harness failure
+    let _watchdog = crate::util::Watchdog::arm("server start", 240);
     server::streaming::systems::streams::verif_reset_process_globals();
     let t0 = std::time::Instant::now();
     // Sequential lenses drive everything (server tasks and SDK client calls) from the calling thread through
